@@ -59,6 +59,17 @@ def cases(rng, tier):
         q["rcode"] = dns.rcdisc((ext << 4) | low)
         DESCS[c] = q
         out.append(c)
+    # the 16 flag bits of the OPT TTL (DO and the fifteen Z bits, "set to zero by senders and ignored by receivers") under
+    # version 0, 1 and 255, each bit alone and all together: the EDNS data read is the same whatever they are
+    for ver in (0, 1, 255):
+        for fl in [1 << b for b in range(16)] + [0x7FFF, 0xFFFF, 0x8001]:
+            for ext in (0, 1):
+                optrr = b"\x00\x00\x29\x04\xd0" + bytes([ext, ver]) + fl.to_bytes(2, "big") + b"\x00\x06\x00\x0a\x00\x02\xab\xcd"
+                msg = b"\x00\x05\x84\x03\x00\x00\x00\x00\x00\x00\x00\x01" + optrr
+                c = "PARSE " + msg.hex()
+                DESCS[c] = {"id": 5, "opcode": 0, "rcode": dns.rcdisc((ext << 4) | 3), "flags": 0x8400, "opt": {"udp": 1232, "version": ver, "codes": [(10, b"\xab\xcd")]},
+                            "qs": [], "ans": [], "nss": [], "adds": []}
+                out.append(c)
     # third-party vectors: dig-style queries (udp 4096, no options; DO bit set; a cookie option)
     q = b"\x06\x67\x6f\x6f\x67\x6c\x65\x03\x63\x6f\x6d\x00\x00\x01\x00\x01"
     for (hdr, opt, exp_opt) in (
